@@ -13,12 +13,12 @@ namespace AsmjitVerif.Props.C01
 open Spec.X86 Model.X86 AsmjitVerif.Lemmas.X86Parse
 
 /-- the memory-related fields of a parse -/
-structure MemFields (p : Parsed) (mb : BitVec 8) (sib : Option (BitVec 8)) (ds : List (BitVec 8)) (B X : Bool) : Prop where
+structure MemFields (p : Parsed) (pfx : List (BitVec 8)) (mb : BitVec 8) (sib : Option (BitVec 8)) (ds : List (BitVec 8)) (B X : Bool) : Prop where
   hpm : p.modrm = some mb
   hps : p.sib = sib
   hpd : p.dispSize = ds.length
   hpv : p.disp = leNat ds
-  hpp : p.prefixes = []
+  hpp : p.prefixes = pfx
   hpa : p.addr16 = false
   hpB : p.B = B
   hpX : p.X = X
@@ -40,16 +40,17 @@ theorem vex3_xb_roundtrip (opcode reg vvvvv xb : BitVec 32)
   all_goals bv_decide
 
 /-- EVEX bytes followed by a memory ModRM -/
-theorem evexG_parsed (rule : Rule) (opcode reg vvvvv xb : BitVec 32) (mb : BitVec 8) (sib : Option (BitVec 8)) (ds imm : List (BitVec 8))
+theorem evexG_parsed (rule : Rule) (opcode reg vvvvv xb : BitVec 32) (pfx : List (BitVec 8)) (mb : BitVec 8) (sib : Option (BitVec 8)) (ds imm : List (BitVec 8))
+    (hpl : PfxList false pfx)
     (hr : reg < 32#32) (hv : vvvvv < 32#32) (hb : xb < 32#32) (hxop : opcode &&& 0x800#32 = 0#32)
     (R : VexRuleM rule imm.length) (hs : rule.space = 2) (A : RowAgree rule opcode true)
     (hmodne : bits mb 6 2 ≠ 3) (fsib : (bits mb 0 3 == 4) = sib.isSome) (hdl : ds.length = dispLen mb sib)
     (freg : bits mb 3 3 = ((reg + (vvvvv <<< 7)) &&& 7#32).toNat) :
-    ∃ p, parse true rule (le32 (evexWord (xR opcode 0#32 reg vvvvv xb 0#32) opcode) ++ [opcode.truncate 8] ++ (mb :: (sib.toList ++ ds)) ++ imm) = .ok p ∧
-      VexParsedM rule p mb ∧
+    ∃ p, parse true rule (pfx ++ (le32 (evexWord (xR opcode 0#32 reg vvvvv xb 0#32) opcode) ++ [opcode.truncate 8] ++ (mb :: (sib.toList ++ ds)) ++ imm)) = .ok p ∧
+      VexParsedM rule p mb pfx ∧
       regNum p.R' p.R (bits mb 3 3) = reg.toNat ∧
       regNum p.V' false p.vvvv = vvvvv.toNat ∧
-      MemFields p mb sib ds (xb.getLsbD 3) (xb.getLsbD 4) ∧
+      MemFields p pfx mb sib ds (xb.getLsbD 3) (xb.getLsbD 4) ∧
       (if p.vexKind == 4 then disp8N rule p else 1) =
         disp8Nf rule ((opcode >>> 29) &&& 3#32).toNat ((((opcode >>> 27) ||| (opcode >>> 28)) &&& 1#32) == 1#32) false ∧
       p.imm = imm := by
@@ -62,8 +63,9 @@ theorem evexG_parsed (rule : Rule) (opcode reg vvvvv xb : BitVec 32) (mb : BitVe
   generalize hwdef : evexWord (xR opcode 0#32 reg vvvvv xb 0#32) opcode = w at *
   have ho7 : (reg + (vvvvv <<< 7)) &&& 7#32 < 8#32 := by bv_decide
   simp only [le32, List.cons_append, List.nil_append, hb0, List.append_assoc]
-  have hparse := parse_evex_mem rule (BitVec.truncate 8 (w >>> 8)) (BitVec.truncate 8 (w >>> 16)) (BitVec.truncate 8 (w >>> 24)) (opcode.truncate 8)
-    mb sib ds imm hs R.hpp8 (by rcases R.hmk with h | h <;> simp [h]) (by simp only [bit]; bv_decide)
+  have hpl' : PfxList (rule.pp &&& 8 != 0) pfx := by rw [R.hpp8]; exact hpl
+  have hparse := parse_evex_mem rule pfx (BitVec.truncate 8 (w >>> 8)) (BitVec.truncate 8 (w >>> 16)) (BitVec.truncate 8 (w >>> 24)) (opcode.truncate 8)
+    mb sib ds imm hpl' hs R.hpp8 (by rcases R.hmk with h | h <;> simp [h]) (by simp only [bit]; bv_decide)
     (by simp only [bit]; bv_decide) hmodne fsib hdl (by simp [R.himm, R.hrel]) R.hmoff
   simp only [List.append_assoc] at hparse
   refine ⟨_, hparse, ?P, ?hreg, ?hvv, ?hF, ?hN, rfl⟩
@@ -117,16 +119,17 @@ theorem evexG_parsed (rule : Rule) (opcode reg vvvvv xb : BitVec 32) (mb : BitVe
     simp only [disp8N, hL, hW, hB, beq_self_eq_true, ↓reduceIte]
 
 /-- VEX3 bytes (C4) followed by a memory ModRM -/
-theorem vex3G_parsed (rule : Rule) (opcode reg vvvvv xb : BitVec 32) (mb : BitVec 8) (sib : Option (BitVec 8)) (ds imm : List (BitVec 8))
+theorem vex3G_parsed (rule : Rule) (opcode reg vvvvv xb : BitVec 32) (pfx : List (BitVec 8)) (mb : BitVec 8) (sib : Option (BitVec 8)) (ds imm : List (BitVec 8))
+    (hpl : PfxList false pfx)
     (hr : reg < 16#32) (hv : vvvvv < 16#32) (hb : xb < 32#32) (hxop : opcode &&& 0x800#32 = 0#32) (hll : opcode &&& 0x40001000#32 = 0#32)
     (R : VexRuleM rule imm.length) (hs : rule.space = 1) (A : RowAgree rule opcode false)
     (hmodne : bits mb 6 2 ≠ 3) (fsib : (bits mb 0 3 == 4) = sib.isSome) (hdl : ds.length = dispLen mb sib)
     (freg : bits mb 3 3 = ((reg + (vvvvv <<< 7)) &&& 7#32).toNat) :
-    ∃ p, parse true rule (le32 (vex3Word (vexPrep (xR opcode 0#32 reg vvvvv xb 0#32) opcode 0#32) opcode) ++ (mb :: (sib.toList ++ ds)) ++ imm) = .ok p ∧
-      VexParsedM rule p mb ∧
+    ∃ p, parse true rule (pfx ++ (le32 (vex3Word (vexPrep (xR opcode 0#32 reg vvvvv xb 0#32) opcode 0#32) opcode) ++ (mb :: (sib.toList ++ ds)) ++ imm)) = .ok p ∧
+      VexParsedM rule p mb pfx ∧
       regNum p.R' p.R (bits mb 3 3) = reg.toNat ∧
       regNum p.V' false p.vvvv = vvvvv.toNat ∧
-      MemFields p mb sib ds (xb.getLsbD 3) (xb.getLsbD 4) ∧
+      MemFields p pfx mb sib ds (xb.getLsbD 3) (xb.getLsbD 4) ∧
       (if p.vexKind == 4 then disp8N rule p else 1) = 1 ∧
       p.imm = imm := by
   obtain ⟨hop, hmap, hpp, hw, hl⟩ := A
@@ -138,8 +141,9 @@ theorem vex3G_parsed (rule : Rule) (opcode reg vvvvv xb : BitVec 32) (mb : BitVe
   generalize vex3Word (vexPrep (xR opcode 0#32 reg vvvvv xb 0#32) opcode 0#32) opcode = w at *
   have ho7 : (reg + (vvvvv <<< 7)) &&& 7#32 < 8#32 := by bv_decide
   simp only [le32, List.cons_append, List.nil_append, hb0, List.append_assoc]
-  have hparse := parse_vex3_mem rule (BitVec.truncate 8 (w >>> 8)) (BitVec.truncate 8 (w >>> 16)) (BitVec.truncate 8 (w >>> 24))
-    mb sib ds imm hs R.hpp8 (by rcases R.hmk with h | h <;> simp [h]) hmodne fsib hdl (by simp [R.himm, R.hrel]) R.hmoff
+  have hpl' : PfxList (rule.pp &&& 8 != 0) pfx := by rw [R.hpp8]; exact hpl
+  have hparse := parse_vex3_mem rule pfx (BitVec.truncate 8 (w >>> 8)) (BitVec.truncate 8 (w >>> 16)) (BitVec.truncate 8 (w >>> 24))
+    mb sib ds imm hpl' hs R.hpp8 (by rcases R.hmk with h | h <;> simp [h]) hmodne fsib hdl (by simp [R.himm, R.hrel]) R.hmoff
   simp only [List.append_assoc] at hparse
   refine ⟨_, hparse, ?P, ?hreg, ?hvv, ?hF, rfl, rfl⟩
   case P =>
@@ -183,18 +187,19 @@ theorem vex3G_parsed (rule : Rule) (opcode reg vvvvv xb : BitVec 32) (mb : BitVe
       simp only [bit]; bv_decide
 
 /-- VEX2 bytes (C5) followed by a memory ModRM; chosen only when representable (B = X = 0, W = 0, map 0F) -/
-theorem vex2G_parsed (rule : Rule) (opcode reg vvvvv xb : BitVec 32) (mb : BitVec 8) (sib : Option (BitVec 8)) (ds imm : List (BitVec 8))
+theorem vex2G_parsed (rule : Rule) (opcode reg vvvvv xb : BitVec 32) (pfx : List (BitVec 8)) (mb : BitVec 8) (sib : Option (BitVec 8)) (ds imm : List (BitVec 8))
+    (hpl : PfxList false pfx)
     (hr : reg < 16#32) (hv : vvvvv < 16#32) (hb : xb < 32#32) (hll : opcode &&& 0x40001000#32 = 0#32) (hmm : opcode &&& 0x100#32 ≠ 0#32)
     (h2 : vexPrep (xR opcode 0#32 reg vvvvv xb 0#32) opcode 0#32 &&& 0x8000807E#32 = 0#32)
     (R : VexRuleM rule imm.length) (hs : rule.space = 1) (A : RowAgree rule opcode false)
     (hmodne : bits mb 6 2 ≠ 3) (fsib : (bits mb 0 3 == 4) = sib.isSome) (hdl : ds.length = dispLen mb sib)
     (freg : bits mb 3 3 = ((reg + (vvvvv <<< 7)) &&& 7#32).toNat) :
-    ∃ p, parse true rule ([0xC5#8, (vex2Byte (vexPrep (xR opcode 0#32 reg vvvvv xb 0#32) opcode 0#32)).truncate 8, opcode.truncate 8] ++
-            (mb :: (sib.toList ++ ds)) ++ imm) = .ok p ∧
-      VexParsedM rule p mb ∧
+    ∃ p, parse true rule (pfx ++ ([0xC5#8, (vex2Byte (vexPrep (xR opcode 0#32 reg vvvvv xb 0#32) opcode 0#32)).truncate 8, opcode.truncate 8] ++
+            (mb :: (sib.toList ++ ds)) ++ imm)) = .ok p ∧
+      VexParsedM rule p mb pfx ∧
       regNum p.R' p.R (bits mb 3 3) = reg.toNat ∧
       regNum p.V' false p.vvvv = vvvvv.toNat ∧
-      MemFields p mb sib ds (xb.getLsbD 3) (xb.getLsbD 4) ∧
+      MemFields p pfx mb sib ds (xb.getLsbD 3) (xb.getLsbD 4) ∧
       (if p.vexKind == 4 then disp8N rule p else 1) = 1 ∧
       p.imm = imm := by
   obtain ⟨hop, hmap, hpp, hw, hl⟩ := A
@@ -209,7 +214,8 @@ theorem vex2G_parsed (rule : Rule) (opcode reg vvvvv xb : BitVec 32) (mb : BitVe
   generalize (BitVec.truncate 8 (vex2Byte (vexPrep (xR opcode 0#32 reg vvvvv xb 0#32) opcode 0#32)) : BitVec 8) = b1 at *
   have ho7 : (reg + (vvvvv <<< 7)) &&& 7#32 < 8#32 := by bv_decide
   simp only [List.cons_append, List.nil_append, List.append_assoc]
-  have hparse := parse_vex2_mem rule b1 (opcode.truncate 8) mb sib ds imm hs R.hpp8 (by rcases R.hmk with h | h <;> simp [h]) hmodne fsib hdl
+  have hpl' : PfxList (rule.pp &&& 8 != 0) pfx := by rw [R.hpp8]; exact hpl
+  have hparse := parse_vex2_mem rule pfx b1 (opcode.truncate 8) mb sib ds imm hpl' hs R.hpp8 (by rcases R.hmk with h | h <;> simp [h]) hmodne fsib hdl
     (by simp [R.himm, R.hrel]) R.hmoff
   simp only [List.append_assoc] at hparse
   refine ⟨_, hparse, ?P, ?hreg, ?hvv, ?hF, rfl, rfl⟩
